@@ -417,9 +417,31 @@ def handleManager (vu : Variant) (case : Nat) (j : Json) : IO Unit := do
       s!"one long-lived {subject} instance, {n} endpoint(s), {cfgStr}: the breaker of endpoint {e} violates clause {k.name} at step {at'} ({opAt at'}; answer: {ansAt at'}; reported (phase 0 closed/1 open/2 half-open, failures, successes, half-open admissions) before {if at' == 0 then "[0, 0, 0, 0]" else repAt (at' - 1) e} after {repAt at' e}); {diffNote}history [{histStr}]"
       modelJson
 
+/-- kind "engine-slow": the engine's breaker as the engine drives it, opened by failures that took `delay` to happen.
+    Clause `holds` counts the timeout from the last FAILURE (the history the clause monitor sees is
+    fail × threshold at time 0, ask at 0⁺ → refused, ask at timeout − delay/2 → refused, ask at timeout + delay/2 →
+    admitted; `engineSim` answers exactly that).  If the machine was too slow for the middle ask to fall before the
+    timeout (real time since the failures ≥ delay/2) the case is not judged. -/
+def handleEngineSlow (case : Nat) (j : Json) : IO Unit := do
+  let impl := jget j "impl"
+  if jstr (jget impl "start_err") != "" then
+    emit case false true "start-error" "" (jstr (jget impl "start_err")); return
+  let pair := fun (k : String) => (jintList (jget impl k))
+  let refused := fun (p : List Int) => p.getD 1 0 == 0 && p.getD 0 0 != 200
+  let served := fun (p : List Int) => p.getD 1 0 ≥ 1 && p.getD 0 0 == 200
+  let inTime := jnat (jget impl "real_ms_since_failure") + 100 < jnat (jget impl "margin_ms") && jnat (jget impl "arrived") ≥ jnat (jget impl "senders")
+  if !inTime then
+    emit case true true "trivial" "" "the machine was too slow for the middle ask to fall before the timeout; not judged"; return
+  let holds := refused (pair "right_after") && refused (pair "before_timeout")
+  let admits := served (pair "after_timeout")
+  emit case (holds && admits) (holds && admits) "engine-slow" (if !holds then "holds-while-open" else if !admits then "admits-after-timeout" else "")
+    (if holds && admits then "" else s!"olla engine, {jnat (jget impl "senders")} requests dispatched together, each failing {jnat (jget impl "delay_ms")} ms after its dispatch: right after the failures (status, reached backend) {pair "right_after"}; stamp moved back by timeout - delay/2 {pair "before_timeout"}; moved back past the timeout {pair "after_timeout"}")
+
 def handle (vh vu : Variant) (j : Json) : IO Unit := do
   let case := jnat (jget j "case")
   let kind := jstr (jget j "kind")
+  if kind == "engine-slow" then
+    handleEngineSlow case j; return
   if kind == "lifecycle" then
     handleLifecycle vu case j; return
   if kind == "manager" then
